@@ -169,6 +169,31 @@ example : ∀ s c : Nat, s < 256 → c < 256 → evaluate [s, c] 0 = s :=
   fun s c hs hc => evaluate_at_zero hs (by intro v hv; simp at hv; omega)
 example : (split [66] [7] [[5]] = split [200] [7] [[225]]) := by decide
 
+/-- **the dealer must draw from the whole field, zero included** (seeded change C20-4: a dealer that draws the
+leading coefficient again until it is non-zero). At threshold 2 the single observed share `(x, y)` is consistent
+with the candidate secret byte `y` through the coefficient `0` **only**: a dealer that never uses a zero leading
+coefficient can never have produced it, so the holder of one share learns `secret ≠ y` — fewer than `t` shares are
+then *not* consistent with every possible secret. `below_threshold_independent`/`below_threshold_consistent` count
+over **all** byte coefficient tables; the correspondence (`split` operations replayed on a random stream whose
+leading coefficient is zero) checks that the code's dealer uses the stream as it comes. -/
+theorem zero_leading_coefficient_needed_cex (x y c : Nat) (hx : x < 256) (hx0 : x ≠ 0) (hy : y < 256) (hc : c < 256)
+    (h : evaluate [y, c] x = y) : c = 0 := by
+  obtain ⟨cs, _, huniq⟩ := below_threshold_independent [x] [y] y
+    (by intro v hv; simp at hv; omega) (by simp) (by intro v hv; simp at hv; omega)
+    (by intro v hv; simp at hv; omega) rfl hy
+  have h1 := huniq [c] ⟨rfl, by intro v hv; simp at hv; omega, by simp [h]⟩
+  have h0 := huniq [0] ⟨rfl, by intro v hv; simp at hv; omega, by
+    show [evaluate [y, 0] x] = [y]
+    have : evaluate [y, 0] x = y := by
+      show add (mult (add (mult 0 x) 0) x) y = y
+      rw [mult_zero_left]
+      show add (mult 0 x) y = y
+      rw [mult_zero_left]
+      exact Nat.zero_xor y
+    rw [this]⟩
+  have := h1.trans h0.symm
+  simpa using this
+
 /-! ### 5. x-coordinates and `Combine`'s input checks -/
 
 /-- **xs_distinct_nonzero.** Whatever permutation of `1..255` the Fisher–Yates shuffle produces, its first `n`
